@@ -676,28 +676,23 @@ func checkC16(c *ctx) {
 	// output): same exit status, and the tree afterwards is byte for byte the
 	// tree after the first round.
 	rerun := 0
-	parallel(len(pkgs), func(i int) {
-		tr := runTool(pdir, cff, sels[i].args...)
-		if tr.Exit != pkgs[i].run.Exit {
-			c.R.Add(vc.Violation{Property: "C16", Case: "rerun/" + pkgs[i].Rel, Why: fmt.Sprintf("cff exited %d when run over the package again with its earlier output in place; the first run exited %d: %s", tr.Exit, pkgs[i].run.Exit, vc.Tail(tr.Stderr, 600)), Obs: map[string]string{"clause": "footprint"}})
-		}
-	})
-	{
-		again := snapshot(pdir)
-		cr, ch, rm := diffSnap(after, again)
-		rerun = len(after)
-		for _, p := range ch {
-			if p == "go.mod" || p == "go.sum" {
-				continue
+	// Round 2a: as is. Round 2b: every output of the first round first gets a
+	// tail appended, i.e. the path holds a longer, different file from "an
+	// earlier version of the source" - it must be replaced as a whole.
+	for round := 0; round < 2; round++ {
+		if round == 1 {
+			firstOutputs, _, _ := diffSnap(before, after)
+			for _, p := range firstOutputs {
+				if strings.HasSuffix(p, ".go") {
+					f, err := os.OpenFile(filepath.Join(pdir, p), os.O_APPEND|os.O_WRONLY, 0)
+					if err == nil {
+						f.WriteString("\n// tail of an earlier, longer output\nfunc staleTail() { staleTail() }\n" + strings.Repeat("// padding padding padding padding\n", 40))
+						f.Close()
+					}
+				}
 			}
-			c.R.Add(vc.Violation{Property: "C16", Case: "rerun/" + p, Why: "running cff again over a tree that holds its earlier output changed a file: " + p, Obs: map[string]string{"clause": "footprint"}})
 		}
-		for _, p := range cr {
-			c.R.Add(vc.Violation{Property: "C16", Case: "rerun/" + p, Why: "running cff again over a tree that holds its earlier output created another file: " + p, Obs: map[string]string{"clause": "footprint"}})
-		}
-		for _, p := range rm {
-			c.R.Add(vc.Violation{Property: "C16", Case: "rerun/" + p, Why: "running cff again over a tree that holds its earlier output removed a file: " + p, Obs: map[string]string{"clause": "footprint"}})
-		}
+		rerunRound(c, cff, pdir, pkgs, func(i int) []string { return sels[i].args }, after, round, &rerun)
 	}
 	created, changed, removed := diffSnap(before, after)
 	expected := map[string]bool{}
@@ -748,16 +743,75 @@ func checkC16(c *ctx) {
 			}
 		}
 	}
+	// ---- (c') one invocation over a whole tree (./...) whose layout contains
+	// directories that are not packages of the module: testdata, a nested module,
+	// directories starting with _ or ., a symbolic link to a package directory,
+	// a vendor-like directory of another module. Exactly the documented outputs
+	// of the module's own packages appear; everything else is untouched.
+	treeFiles := 0
+	{
+		tdir := newScratch(work, "tree")
+		src := func(pkg string, k int) string {
+			return fmt.Sprintf("//go:build cff\n\npackage %s\n\nimport (\n\t\"context\"\n\n\t\"go.uber.org/cff\"\n)\n\nfunc Run%d(ctx context.Context, n int) (s string, err error) {\n\terr = cff.Flow(ctx,\n\t\tcff.Params(n),\n\t\tcff.Results(&s),\n\t\tcff.Task(func(i int) (string, error) { return string(rune('a' + (i+%d)%%26)), nil }),\n\t)\n\treturn\n}\n", pkg, k, k)
+		}
+		writeFile(filepath.Join(tdir, "a", "a.go"), src("a", 1))
+		writeFile(filepath.Join(tdir, "a", "sub", "deep", "d.go"), src("deep", 2))
+		writeFile(filepath.Join(tdir, "b", "b.go"), src("b", 3))
+		writeFile(filepath.Join(tdir, "b", "b_test.go"), strings.Replace(src("b", 4), "package b", "package b", 1))
+		writeFile(filepath.Join(tdir, "a", "testdata", "t.go"), src("t", 5))
+		writeFile(filepath.Join(tdir, "a", "testdata", "golden_gen.go"), "package t\n\n// a golden file that happens to be named like an output\n")
+		writeFile(filepath.Join(tdir, "_skipped", "s.go"), src("skipped", 6))
+		writeFile(filepath.Join(tdir, ".hidden", "h.go"), src("hidden", 7))
+		writeFile(filepath.Join(tdir, "nested", "go.mod"), "module nestedmod\n\ngo 1.19\n")
+		writeFile(filepath.Join(tdir, "nested", "n.go"), src("nested", 8))
+		writeFile(filepath.Join(tdir, "b", "notes.go.txt"), src("b", 9))
+		os.Symlink(filepath.Join(tdir, "a"), filepath.Join(tdir, "alink"))
+		vc.Run(tdir, vc.Env(), "go", "list", "-tags", "cff", "./...")
+		before := snapshot(tdir)
+		tr := runTool(tdir, cff, "-quiet", "./...")
+		after := snapshot(tdir)
+		cr, ch, rm := diffSnap(before, after)
+		want := map[string]bool{"a/a_gen.go": true, "a/sub/deep/d_gen.go": true, "b/b_gen.go": true, "b/b_gen_test.go": true}
+		treeFiles = len(after)
+		evals++
+		distinct["tree-layout"] = true
+		if tr.Exit != 0 {
+			c.R.Add(vc.Violation{Property: "C16", Case: "tree/exit", Why: fmt.Sprintf("cff ./... over a tree with testdata, a nested module, _ and . directories and a symlinked package directory exited %d: %s", tr.Exit, vc.Tail(tr.Stderr, 600)), Obs: map[string]string{"clause": "footprint"}})
+		}
+		for _, p := range cr {
+			if strings.HasPrefix(p, "alink/") {
+				p = "a/" + strings.TrimPrefix(p, "alink/") // the link's view of a/
+			}
+			if !want[p] {
+				c.R.Add(vc.Violation{Property: "C16", Case: "tree/" + p, Why: "cff ./... created a file outside the documented output paths of the module's own packages: " + p, Obs: map[string]string{"clause": "footprint"}})
+			}
+			delete(want, p)
+		}
+		if tr.Exit == 0 {
+			for p := range want {
+				c.R.Add(vc.Violation{Property: "C16", Case: "tree/" + p, Why: "cff ./... exited 0 but did not write the documented output " + p, Obs: map[string]string{"clause": "footprint"}})
+			}
+		}
+		for _, p := range ch {
+			if p != "go.mod" && p != "go.sum" {
+				c.R.Add(vc.Violation{Property: "C16", Case: "tree/" + p, Why: "cff ./... modified a file that existed before: " + p, Obs: map[string]string{"clause": "footprint"}})
+			}
+		}
+		for _, p := range rm {
+			c.R.Add(vc.Violation{Property: "C16", Case: "tree/" + p, Why: "cff ./... removed a file: " + p, Obs: map[string]string{"clause": "footprint"}})
+		}
+	}
 	cov := map[string]interface{}{
 		"evaluations":         evals,
 		"distinct_nontrivial": len(distinct),
 		"rule": fmt.Sprintf("Engine T. (b) constraints: every expression over the tags {cff,a,b} up to nesting depth %d (exhaustive for that depth) plus a seeded sample of deeper ones, as //go:build lines, as // +build lines (via PlusBuildLines and hand-made comma/space/multi-line forms) and both together, each on a file with one directive; "+
 			"cff run under the four tag sets containing cff; oracle: for all 8 assignments out(sigma) = src(sigma with cff flipped), via go/build/constraint. (a) preservation: Engine G programs and static multi-directive files; source and output ASTs compared structurally after masking top-level directive calls / generated closures; imports only added. "+
-			"(c) footprint: SHA-256 snapshot of the module before/after; created files must be exactly the documented outputs of the selected inputs (random -file and -file=IN=OUT selections); nothing else changes; then every invocation is repeated with the outputs in place and the tree must not change at all. distinct = distinct constraint headers + distinct files compared", exhaustiveDepth),
-		"samples":            samples,
-		"constraint_files":   consChecked,
-		"preservation_files": presChecked,
-		"files_created":      len(created),
+			"(c) footprint: SHA-256 snapshot of the module before/after; created files must be exactly the documented outputs of the selected inputs (random -file and -file=IN=OUT selections); nothing else changes; then every invocation is repeated with the outputs in place and the tree must not change at all; one invocation ./... over a tree with testdata, a nested module, _ and . directories, a symlinked package directory and an in-package test file. distinct = distinct constraint headers + distinct files compared", exhaustiveDepth),
+		"samples":                     samples,
+		"constraint_files":            consChecked,
+		"preservation_files":          presChecked,
+		"files_created":               len(created),
+		"files_in_tree_layout_module": treeFiles,
 		"files_compared_after_rerun_with_outputs_in_place": rerun,
 		"exhaustive":                  false,
 		"exhaustive_constraint_depth": exhaustiveDepth,
@@ -781,4 +835,31 @@ func headerOf(src string) string {
 
 func init() {
 	checks["C16"] = checkC16
+}
+
+// rerunRound repeats every invocation of the footprint phase over the tree as
+// it is now and compares the tree afterwards with the tree after the first round.
+func rerunRound(c *ctx, cff, pdir string, pkgs []*toolPkg, argsOf func(i int) []string, after map[string]string, round int, compared *int) {
+	what := [2]string{"with its earlier output in place", "with a longer, stale file at every output path"}[round]
+	parallel(len(pkgs), func(i int) {
+		tr := runTool(pdir, cff, argsOf(i)...)
+		if tr.Exit != pkgs[i].run.Exit {
+			c.R.Add(vc.Violation{Property: "C16", Case: "rerun/" + pkgs[i].Rel, Why: fmt.Sprintf("cff exited %d when run over the package again %s; the first run exited %d: %s", tr.Exit, what, pkgs[i].run.Exit, vc.Tail(tr.Stderr, 600)), Obs: map[string]string{"clause": "footprint"}})
+		}
+	})
+	again := snapshot(pdir)
+	cr, ch, rm := diffSnap(after, again)
+	*compared += len(after)
+	for _, p := range ch {
+		if p == "go.mod" || p == "go.sum" {
+			continue
+		}
+		c.R.Add(vc.Violation{Property: "C16", Case: "rerun/" + p, Why: "running cff again " + what + " left a file that differs from what the first run wrote: " + p, Obs: map[string]string{"clause": "footprint"}})
+	}
+	for _, p := range cr {
+		c.R.Add(vc.Violation{Property: "C16", Case: "rerun/" + p, Why: "running cff again " + what + " created another file: " + p, Obs: map[string]string{"clause": "footprint"}})
+	}
+	for _, p := range rm {
+		c.R.Add(vc.Violation{Property: "C16", Case: "rerun/" + p, Why: "running cff again " + what + " removed a file: " + p, Obs: map[string]string{"clause": "footprint"}})
+	}
 }
